@@ -63,11 +63,14 @@ def run(eng, rep, tier):
     s2 = interp.run_entry(f2, PDA)
     from ..av import has_qual
     for f_, s_, label in ((fi, summ, "CFG"), (f2, s2, "PDA")):
+        # picking ONE start state: a constant index into the start collection, or next(iter(..)) of it
         picks = [ev for ev, _ in s_.walk() if ev.kind == "subscript" and ev.args and ev.args[0].has_const() and
                  ev.recv is not None and START(OTHER) in deps_of(ev.recv)]
+        picks += [ev for ev, _ in s_.walk() if ev.kind == "bcall" and ev.callee == "next" and ev.args and
+                  START(OTHER) in (deps_of(ev.args[0]) | deps_of(ev.args[0].elem))]
         src = [ev for ev, _ in s_.walk() if ev.kind == "call" and ev.callee.endswith(".start_states") and
                ev.recv is not None and OTHER in ev.recv.alias]
-        okd = bool(picks) and bool(src) and all(has_qual(ev.recv, "DET") for ev in src)
+        okd = bool(src) and (not picks or all(has_qual(ev.recv, "DET") for ev in src))
         bad = next((ev for ev in src if not has_qual(ev.recv, "DET")), None)
         ob.decide("R3c", "C11.1", f_, "single-start-pick:" + label, okd,
                   "the automaton whose start set is indexed is deterministic on every path (is_deterministic() was true, or "
